@@ -256,12 +256,15 @@ class _Session:
             for s, name in zip(SIGSET, cfg.get("handlers", ["default"] * 3)):
                 signal.signal(s, HANDLER_CHOICES[name])
                 init_handlers[s] = signal.getsignal(s)
+            self.init_handlers = init_handlers
+            w.on_self_signal = self.on_self_signal
             cols, rows = cfg["size"]
             tty = self.tty = W.SimTTY(w, "tty", cols, rows, variant=cfg.get("termios", 0))
             # which SIGWINCH the application has caught up with: it has asked the tty for its size after the last
             # one AND redrawn after asking (the raw display consumes its resize flag before it lets the resize settle
             # for resize_wait, so the flag alone does not tell)
             self.winch_count = 0
+            self.last_winch_at = None
             self.size_query_at = 0
             self.rendered_since_query = True
 
@@ -375,12 +378,24 @@ class _Session:
                         tty.cols, tty.rows = c, r
                         term.resize(c, r)
                         self.winch_count += 1
+                        self.last_winch_at = w.clock.now
                         res.fault("sigwinch")
                         h = signal.getsignal(signal.SIGWINCH)
                         if callable(h):
                             h(signal.SIGWINCH, None)
 
                     w.schedule(t, f"sigwinch {evn['cols']}x{evn['rows']}", winch)
+                elif k == "suspend":
+
+                    def suspend():
+                        # the user presses ctrl-Z: SIGTSTP reaches whatever handler is installed at that moment
+                        h = signal.getsignal(signal.SIGTSTP)
+                        res.fault("sigtstp")
+                        w.log.add("sigtstp", "")
+                        if callable(h):
+                            h(signal.SIGTSTP, None)
+
+                    w.schedule(t, "sigtstp", suspend)
                 elif k == "alarm_in":
                     alarm_handles[evn["id"]] = ml.set_alarm_in(t, make_alarm(evn["id"], evn.get("do", "edit")))
                 elif k == "alarm_at":
@@ -543,6 +558,10 @@ class _Session:
             return
         if scr._resized or ml.screen_size is None or tuple(ml.screen_size) != (tty.cols, tty.rows) or self.size_query_at != self.winch_count or not self.rendered_since_query:  # noqa: SLF001
             self.res.probe("block_with_resize_pending")
+            # bounded progress: a window change or a resume must lead to a fresh size query and a redraw; a second after
+            # the last one (eight times the display's resize_wait) the loop may not be waiting with that still undone
+            if self.last_winch_at is not None and self.world.clock.now - self.last_winch_at > 1.0:
+                self.violate("C12.2", "window-change-or-resume-not-followed-by-a-redraw", f"{self.world.clock.now - self.last_winch_at:.3f} s after the last SIGWINCH / SIGCONT the loop waits (timeout {timeout}) without having asked for the size and redrawn")
             return
         if (term.cols, term.rows) != (tty.cols, tty.rows):
             return
@@ -609,7 +628,30 @@ class _Session:
                 raise core.HarnessError(f"harness exception inside run(): {core.format_exc(exc)}") from exc
             self.violate("C12.3", f"run-raised-other:{core.exc_signature(exc)}", core.format_exc(exc))
 
-    def check_restored(self, init_handlers) -> None:
+    def on_self_signal(self, sig) -> None:
+        """os.kill(os.getpid(), sig): urwid's SIGTSTP handler has stopped the screen and re-raises the signal so that the
+        process really stops.  While it is stopped the shell owns the terminal: it must be in its initial modes (the
+        restoration clause, at a point where run() has not ended).  The shell prints its job notice, then the user
+        types `fg`: SIGCONT is delivered to the handler installed at that moment."""
+        if sig not in (signal.SIGTSTP, signal.SIGSTOP):
+            raise core.HarnessError(f"the program sent itself signal {sig}")
+        prev = signal.getsignal(sig) if sig == signal.SIGTSTP else None
+        self.world.log.add("self-signal", int(sig))
+        if callable(prev):
+            prev(sig, None)  # the application's own handler decides; nothing stops the process
+            self.res.probe("sigtstp_passed_to_application_handler")
+        else:
+            self.check_restored(self.init_handlers, suspended=True)
+            self.res.probe("process_suspended")
+            self.term.feed("\r\n[1]+  Stopped\r\n$ fg\r\n")
+        self.winch_count += 1  # resuming forces a redraw like a resize does
+        self.last_winch_at = self.world.clock.now
+        h = signal.getsignal(signal.SIGCONT)
+        self.world.log.add("sigcont", "")
+        if callable(h):
+            h(signal.SIGCONT, None)
+
+    def check_restored(self, init_handlers, suspended: bool = False) -> None:
         scr, term, tty = self.screen, self.term, self.tty
         bad = []
         if scr.started:
@@ -636,10 +678,14 @@ class _Session:
         if tty.attrs != tty.initial_attrs:
             bad.append("termios-not-restored")
         for s in SIGSET:
+            if suspended and s == signal.SIGCONT:
+                continue  # urwid's own handler waits for the resume
             if signal.getsignal(s) is not init_handlers[s] and signal.getsignal(s) != init_handlers[s]:
                 bad.append(f"{signal.Signals(s).name}-handler-not-restored")
         if bad:
-            self.violate("C12.4", "not-restored:" + ",".join(bad), f"after {self.injected[1] if self.injected else 'normal exit'}")
+            self.violate("C12.4", ("not-restored-while-suspended:" if suspended else "not-restored:") + ",".join(bad), "while the process is stopped (ctrl-Z)" if suspended else f"after {self.injected[1] if self.injected else 'normal exit'}")
+        elif suspended:
+            self.res.probe("restoration_checked_while_suspended")
         else:
             self.res.probe("restoration_checked")
 
@@ -787,7 +833,7 @@ class SessionEngine(Engine):
         "real": ["MainLoop", "_posix_raw_display.Screen", "six event loops", "widgets (Frame/ListBox/Edit/Button/...)", "PopUpTarget"],
         "stub": ["tty + termios list", "resize socket pair", "os.pipe for watch_pipe", "selectors/poller/asyncio step/trio fd wait", "clock", "terminal (RefTerm)"],
     }
-    required_probes = ("restoration_checked", "order_checked", "redraw_checked_at_wait", "block_with_resize_pending", "popup_opened", "input_routed_to_open_popup", "root_widget_replaced_from_handler", "input_after_root_swap_in_same_batch", "widget_returned_a_different_key", "second_run_of_the_same_mainloop")
+    required_probes = ("restoration_checked", "order_checked", "redraw_checked_at_wait", "block_with_resize_pending", "popup_opened", "input_routed_to_open_popup", "root_widget_replaced_from_handler", "input_after_root_swap_in_same_batch", "widget_returned_a_different_key", "second_run_of_the_same_mainloop", "process_suspended", "key_with_unselectable_topmost_widget")
     selftest_n = 240
     reducible = ("events",)
 
@@ -839,9 +885,11 @@ class SessionEngine(Engine):
             elif r < 0.6 and cfg["mouse"]:
                 x, y = rng.randrange(cols), rng.randrange(rows)
                 events.append({"ev": "bytes", "t": t, "hex": sgr_press(x, y) + (sgr_press(x, y, True) if rng.random() < 0.5 else "")})
-            elif r < 0.7:
+            elif r < 0.67:
                 c2, r2 = rng.choice([(cols, rows), (cols + 5, rows), (cols, max(2, rows - 2)), (12, 5), (25, 9)])
                 events.append({"ev": "sigwinch", "t": t, "cols": c2, "rows": r2})
+            elif r < 0.7:
+                events.append({"ev": "suspend", "t": t})
             elif r < 0.85:
                 do = rng.choice(["edit", "edit", "noop", "set:0.125", "set:0", f"remove:{rng.randrange(aid + 1)}"])
                 if rng.random() < 0.12:
